@@ -119,7 +119,7 @@ def _all_nfs():
     out.append(("Compiler.compile", c.I, c.tree, c.fi))
     b = br.bnf()
     out.append(("AstBuilder.transform_node", b.I, b.tree, b.fi))
-    for q in ("gherkin.gherkin_line.GherkinLine.tags", "gherkin.gherkin_line.GherkinLine.table_cells", "gherkin.ast_builder.AstBuilder.build",
+    for q in (f"gherkin.gherkin_line.GherkinLine.{N.TAGS}", f"gherkin.gherkin_line.GherkinLine.{N.TABLE_CELLS}", "gherkin.ast_builder.AstBuilder.build",
               "gherkin.ast_builder.AstBuilder.get_result", f"gherkin.token_matcher.TokenMatcher.{N.CHANGE_DIALECT}",
               "gherkin.errors.UnexpectedTokenException.__init__", "gherkin.errors.UnexpectedEOFException.__init__", "gherkin.errors.CompositeParserException.__init__",
               "gherkin.token_formatter_builder.TokenFormatterBuilder.get_result", "gherkin.stream.gherkin_events.create_errors"):
@@ -262,7 +262,31 @@ def rule_partial(rep: Report, rid="C01.partial") -> None:
                     rep.ob(rid + ".regex", f"class-level pattern {c.name}.{name} is a constant, well-formed regular expression", ok, file=m.rel, line=val.lineno,
                            function=c.qualname, expected="constant pattern", found=unparse(pat) if pat is not None else None)
     seen = {}
-    for label, I, tree, fi in nfs:
+
+    def uncovered_functions():
+        out = []
+        for key in sorted(ast_sites):
+            if key in seen:
+                continue
+            for fn in f.all_functions():
+                if fn.file == key[0] and fn.node.lineno <= key[1] <= (fn.node.end_lineno or 0) and fn not in out \
+                        and any(getattr(x, "lineno", None) == key[1] for x in walk_no_nested_defs(fn.node)):
+                    out.append(fn)
+        return out
+
+    def all_entries():
+        yield from nfs
+        # a call site none of the standard entry points reaches (a helper under a new name, a function only used from
+        # outside): its own function is analysed as an entry point of its own
+        for fn in uncovered_functions():
+            I2 = new_interp()
+            try:
+                tree2, rv2, st2 = I2.run(fn.qualname)
+            except AnalysisError:
+                continue
+            yield (fn.qualname, I2, tree2, fn)
+
+    for label, I, tree, fi in all_entries():
         for n, ctx in nf.iter_nodes(tree):
             if n[0] == "extcall" and n[1] in RE_FUNCS:
                 # attribute the site to the function whose source line it is
